@@ -123,6 +123,9 @@ def canonical_finding(psi, eng, c):
 
 
 def last_E_trunc(eng, n_updates):
+    """Largest |E_trunc| reported for the last sweep; 0 if that sweep reports that nothing was truncated."""
+    if max(eng.trunc_err_list, default=0.0) <= 1e-13:
+        return 0.0
     return max([abs(x) for x in eng.update_stats['E_trunc'][-n_updates:] if x is not None], default=0.0)
 
 
